@@ -162,7 +162,7 @@ def _check_scalar_inf(x):
 def _sign_fn(x):
     # noinspection PyBroadException
     try:
-        if _check_scalar_bad(x):
+        if _check_scalar_nan(x):
             return numpy.nan
         if x > 0:
             return 1.0
@@ -174,7 +174,7 @@ def _sign_fn(x):
 
 
 def _abs_fn(x):
-    if _check_scalar_bad(x):
+    if _check_scalar_nan(x):
         return numpy.nan
     if x >= 0:
         return x
